@@ -46,11 +46,17 @@ def run_case(case):
                     sc.commit_all("after-" + ch)
                     sc.check_blame_tip(where, complete=False, rule="C03")
             elif r < 0.9:
-                k = rng.choice(["rebase", "cherry", "merge", "squash", "stash", "reset", "switch"] + (["amend"] if sc.profile.get("amend_human_edit", True) else []))
-                if k in ("rebase", "cherry", "merge", "squash"):
+                k = rng.choice(["rebase", "cherry", "merge", "squash", "stash", "reset", "switch", "range-shapes", "range-shapes"] + (["amend"] if sc.profile.get("amend_human_edit", True) else []))
+                if k in ("rebase", "cherry", "merge", "squash", "range-shapes"):
                     sc.commit_all("pre")
-                {"rebase": sc.op_rebase, "cherry": sc.op_cherry_pick, "merge": sc.op_merge, "squash": sc.op_squash_merge,
-                 "stash": sc.op_stash, "reset": sc.op_reset, "amend": sc.op_amend, "switch": sc.op_switch_carry}[k]()
+                if k == "range-shapes":
+                    # rewritten ranges for which a note may be copied for SOME commits only (C15's shapes): a copied note whose line
+                    # numbers describe another layout credits a person's line
+                    from . import c15
+                    rng.choice([c15.partial_precondition_cherry_pick, c15.partial_precondition_cherry_pick, c15.partial_precondition_rebase, c15.dropped_duplicate_rebase])(sc)
+                else:
+                    {"rebase": sc.op_rebase, "cherry": sc.op_cherry_pick, "merge": sc.op_merge, "squash": sc.op_squash_merge,
+                     "stash": sc.op_stash, "reset": sc.op_reset, "amend": sc.op_amend, "switch": sc.op_switch_carry}[k]()
             else:
                 sc.human_overwrite_same_lines()
             sc.after_step(where)
